@@ -286,6 +286,8 @@ pub fn run(ctx: &Ctx) -> Report {
         vec![("X-Bin", b"caf\xe9 \"q  q\"\tt")],
         vec![("X-Nbsp", b"voil\xc3\xa0"), ("X-Nel", b"\x85SM\xc3\x96RG\xc3\x85"), ("X-Tab", b"\tt\t")],
         vec![("X-Amz-Meta-A", b"1"), ("X-Amz-Meta-B", b"2"), ("Content-Type", b"text/plain; charset=utf-8")],
+        // names that are prefixes of one another, continued by characters sorting below and above ':' and ';'
+        vec![("X-Amz-Meta-A", b"1"), ("X-Amz-Meta-A-B", b"2"), ("X-Amz-Meta-A.C", b"3"), ("X-Amz-Meta-A0", b"4"), ("X-Amz-Meta-Az", b"5"), ("X-Amz-Meta", b"6"), ("X-Amz-Meta-A_", b"7")],
         // the HTTP Date header next to X-Amz-Date, as most HTTP stacks send it (X-Amz-Date has precedence)
         vec![("Date", b"Sun, 30 Aug 2015 12:36:00 GMT")],
         vec![("Date", b"20150830T122900Z"), ("Expires", b"Sun, 30 Aug 2015 12:36:00 GMT"), ("X-Amz-Expires", b"86400"), ("Content-Length", b"0")],
@@ -587,7 +589,7 @@ pub fn run(ctx: &Ctx) -> Report {
     Report {
         stats: st,
         rule: format!(
-            "requests signed by the independent reference signer from decoded data, then spelled on the wire: (A) every path of <= {} segments over {} segment values x trailing slash x {} spellings per segment x carrier x {{standard,S3}}; (B) every list of <= {} parameters over {} names x {} values, full product of {} spellings per element for <= 2 parameters and one element at a time above, x carrier; (C) 12 header sets (incl. an HTTP-date or a stale ISO Date header next to X-Amz-Date, Expires / X-Amz-Expires / Content-Length bystanders) x 6 Authorization parameter orders x 4 separators x 2 leads x 3 name cases x X-Amz-Date/Date x extras signed or not; (D) 6 bodies x 5 content types x {{default, S3, fold, S3+fold}} x carrier x 4 tokens (incl. the empty one) x 6 methods x URL parameters; (E) 9 clock offsets in [-15min,+15min] incl. +-1ns from the bounds x 4 server instants x 6 date renderings x carrier; (F) 1440 rich combinations; (G) scale: 21-300 parameters over 1/3/16 names, 30 signed headers, one header with 30 values, 4 kB header and 9 kB query values with a 300 kB body, 60 path segments, a folded form of 120 parameters — each 8 times through fresh maps, both carriers. Every second case is preceded, on the same thread, by one of 7 refused requests (bad escapes half-way through a query key / value / path / form body, wrong signature, expired) so that acceptance is also checked from non-initial states. Oracle: accepted (the provider bookkeeping is C03/C14's subject and is not judged here). states = distinct reference canonical requests; non-trivial = distinct (wire request, options, clock)",
+            "requests signed by the independent reference signer from decoded data, then spelled on the wire: (A) every path of <= {} segments over {} segment values x trailing slash x {} spellings per segment x carrier x {{standard,S3}}; (B) every list of <= {} parameters over {} names x {} values, full product of {} spellings per element for <= 2 parameters and one element at a time above, x carrier; (C) 13 header sets (incl. names that are prefixes of one another, an HTTP-date or a stale ISO Date header next to X-Amz-Date, Expires / X-Amz-Expires / Content-Length bystanders) x 6 Authorization parameter orders x 4 separators x 2 leads x 3 name cases x X-Amz-Date/Date x extras signed or not; (D) 6 bodies x 5 content types x {{default, S3, fold, S3+fold}} x carrier x 4 tokens (incl. the empty one) x 6 methods x URL parameters; (E) 9 clock offsets in [-15min,+15min] incl. +-1ns from the bounds x 4 server instants x 6 date renderings x carrier; (F) 1440 rich combinations; (G) scale: 21-300 parameters over 1/3/16 names, 30 signed headers, one header with 30 values, 4 kB header and 9 kB query values with a 300 kB body, 60 path segments, a folded form of 120 parameters — each 8 times through fresh maps, both carriers. Every second case is preceded, on the same thread, by one of 7 refused requests (bad escapes half-way through a query key / value / path / form body, wrong signature, expired) so that acceptance is also checked from non-initial states. Oracle: accepted (the provider bookkeeping is C03/C14's subject and is not judged here). states = distinct reference canonical requests; non-trivial = distinct (wire request, options, clock)",
             nseg, SEGS.len(), NSPELL, nq, QNAMES.len(), QVALUES.len(), NSPELL
         ),
         bounds: json!({"path_segments": nseg, "query_params": nq, "cases_enumerated": base}),
